@@ -12,6 +12,20 @@ Section Commute.
     valid o (NRKOM s) (NRENTW s) = false -> apply cont o s = s.
   Proof. intros cont o s H. unfold apply. now rewrite H. Qed.
 
+  Lemma other_file_untouched_lemma : forall cont target (o : cropow T) file s,
+    target <> base_name file -> apply_to cont target o file s = s.
+  Proof.
+    intros cont target o file s H. unfold apply_to, applies_to, lstr_eqb.
+    destruct (list_eq_dec ascii_dec target (base_name file)); [contradiction|reflexivity].
+  Qed.
+
+  Lemma addressed_file_lemma : forall cont (o : cropow T) file s,
+    apply_to cont (base_name file) o file s = apply cont o s.
+  Proof.
+    intros. unfold apply_to, applies_to, lstr_eqb.
+    destruct (list_eq_dec ascii_dec (base_name file) (base_name file)); [reflexivity|congruence].
+  Qed.
+
   (* what validity says about the entries the lookups can return *)
   Lemma look_stage_range (o : cropow T) nk ne p k v :
     valid o nk ne = true -> look_stage o p k = Some v -> 1 <= k <= ne.
